@@ -185,11 +185,19 @@ def step (st : St) (ts : List String) (impl : String) : St × String × String :
     match st.rb with
     | none => (st, "bad-op", "")
     | some rb =>
-      match modelOp rb op args with
-      | none => (st, "bad-op", "")
-      | some (rb', r) =>
-        let rb' := rb'.compact
-        ({ st with rb := some rb' }, r ++ " " ++ showRB rb', "")
+      match op, args with
+      | "getcur", [] =>
+        let r := match getCursor rb with
+          | some (l, c) => s!"r=1,{l},{c}"
+          | none => "r=0,-77,-77"
+        (st, r ++ " " ++ showRB rb, "")
+      | "getcells", [] => (st, "r=" ++ showCells rb ++ " " ++ showRB rb, "")
+      | _, _ =>
+        match parseOp op args with
+        | none => (st, "bad-op", "")
+        | some o =>
+          let rb' := (RB.step rb o).compact
+          ({ st with rb := some rb' }, modelRet rb o ++ " " ++ showRB rb', "")
   | [] => (st, "bad-op", "")
 
 def engine : Engine := { σ := St, init := {}, step := step }
